@@ -1,4 +1,4 @@
-import BoboVerif.Lemmas.Remote
+import BoboVerif.Lemmas.RemoteJoin
 /-!
 Exact (run-level, not only status-level) effect of the loops of
 `on_distributed_update` on one run key, for configurations without singletons.
@@ -123,5 +123,87 @@ theorem fold_updateOne_exact (c : Cfg ε) (hns : NoSing c) (rs : List (Rec ε)) 
       simp only [this, hk, if_true, List.filter_cons, List.foldl_cons]
     · have hk' : keyMatch ph pa id rr = false := by simpa using hk
       cases hq : c.getPattern rr.phen rr.pat <;> simp [hk', List.filter_cons]
+
+end Bobo.Decider
+
+namespace Bobo.Decider
+open Bobo.Run Bobo.Lattice
+set_option linter.unusedSimpArgs false
+variable {ε : Type}
+
+theorem any_known_key (c : Cfg ε) (ph pa id : String) (p : Pattern ε) (hp : c.getPattern ph pa = some p)
+    (l : List (Rec ε)) : l.any (fun rr => known c rr && keyMatch ph pa id rr) = l.any (keyMatch ph pa id) := by
+  induction l with
+  | nil => rfl
+  | cons rr rest ih =>
+    simp only [List.any_cons, ih]
+    by_cases hk : keyMatch ph pa id rr = true
+    · obtain ⟨h1, h2, _⟩ := (keyMatch_iff ph pa id rr).mp hk
+      have : known c rr = true := by simp [known, ← h1, ← h2, hp]
+      simp [this, hk]
+    · have hk' : keyMatch ph pa id rr = false := by simpa using hk
+      simp [hk']
+
+/-- **`on_distributed_update`, one key, exactly** (non-singleton configuration, memory enabled and not
+evicting, the message names no run this instance remembers as finished and does not name one run both as
+finished and as updated): the key named by a completed / halted record is dropped, any other key ends at
+what applying the `updated` records naming it, in order, gives; the memories grow by the two lists. -/
+theorem remote_exact (c : Cfg ε) (hc : c.caching = true) (hns : NoSing c) (s : DState ε)
+    (comp halt upd : List (Rec ε))
+    (hevC : s.cacheC.length + comp.length ≤ c.maxCache)
+    (hevH : s.cacheH.length + halt.length ≤ c.maxCache)
+    (hmem : ∀ x ∈ comp ++ halt ++ upd, inCache s.cacheC x.id = false ∧ inCache s.cacheH x.id = false)
+    (hsep : ∀ u ∈ upd, ∀ f ∈ comp ++ halt, u.id ≠ f.id) :
+    ∃ s' n, remoteStep c s comp halt upd = some (s', n) ∧
+      s'.cacheC = s.cacheC ++ comp ∧ s'.cacheH = s.cacheH ++ halt ∧
+      ∀ ph pa id p, c.getPattern ph pa = some p →
+        s'.table.runAt ph pa id = (upd.filter (keyMatch ph pa id)).foldl (applyRec p)
+          (if (comp ++ halt).any (keyMatch ph pa id) then none else s.table.runAt ph pa id) := by
+  unfold remoteStep remoteStepG
+  simp only [checkAgainstCache, hc, if_true]
+  have hcomp1 : comp.filter (fun r => !inCache s.cacheC r.id) = comp := by
+    rw [List.filter_eq_self]; intro x hx
+    simp [(hmem x (List.mem_append.mpr (.inl (List.mem_append.mpr (.inl hx))))).1]
+  have hhalt1 : halt.filter (fun r => !inCache s.cacheC r.id && !inCache s.cacheH r.id) = halt := by
+    rw [List.filter_eq_self]; intro x hx
+    have := hmem x (List.mem_append.mpr (.inl (List.mem_append.mpr (.inr hx))))
+    simp [this.1, this.2]
+  have hupd1 : upd.filter (fun r => !inCache s.cacheC r.id && !inCache s.cacheH r.id) = upd := by
+    rw [List.filter_eq_self]; intro x hx
+    have := hmem x (List.mem_append.mpr (.inr hx))
+    simp [this.1, this.2]
+  rw [hcomp1, hhalt1, hupd1, maybeCache_noevict c hc s comp halt hevC hevH]
+  generalize hs1 : ({ s with cacheC := s.cacheC ++ comp, cacheH := s.cacheH ++ halt } : DState ε) = s1
+  obtain ⟨hC2, hH2, _⟩ := fold_removeOne c hns true comp s1 []
+  have hT2 := fold_removeOne_exact c hns true comp s1 []
+  generalize hf2 : comp.foldl (removeOne c true) (s1, []) = st2 at hC2 hH2 hT2
+  obtain ⟨s2, compOut⟩ := st2
+  simp only at hC2 hH2 hT2 ⊢
+  obtain ⟨hC3, hH3, _⟩ := fold_removeOne c hns false halt s2 []
+  have hT3 := fold_removeOne_exact c hns false halt s2 []
+  generalize hf3 : halt.foldl (removeOne c false) (s2, []) = st3 at hC3 hH3 hT3
+  obtain ⟨s3, haltOut⟩ := st3
+  simp only at hC3 hH3 hT3 ⊢
+  have hC3' : s3.cacheC = s.cacheC ++ comp := by rw [hC3, hC2, ← hs1]
+  have hH3' : s3.cacheH = s.cacheH ++ halt := by rw [hH3, hH2, ← hs1]
+  have hupd2 : upd.filter (fun r => !inCache s3.cacheC r.id && !inCache s3.cacheH r.id) = upd := by
+    rw [List.filter_eq_self]; intro x hx
+    have hm := hmem x (List.mem_append.mpr (.inr hx))
+    have h1 : comp.any (·.id == x.id) = false := by
+      rw [List.any_eq_false]; intro f hf
+      have := hsep x hx f (List.mem_append.mpr (.inl hf))
+      simpa using fun e => this e.symm
+    have h2 : halt.any (·.id == x.id) = false := by
+      rw [List.any_eq_false]; intro f hf
+      have := hsep x hx f (List.mem_append.mpr (.inr hf))
+      simpa using fun e => this e.symm
+    simp [hC3', hH3', inCache_append, hm.1, hm.2, h1, h2]
+  rw [hupd2]
+  obtain ⟨s4, updOut, hfold, hC4, hH4, hT4⟩ := fold_updateOne_exact c hns upd s3 []
+  simp only [hfold]
+  refine ⟨_, _, rfl, by rw [hC4, hC3'], by rw [hH4, hH3'], fun ph pa id p hp => ?_⟩
+  rw [hT4 ph pa id p hp, hT3 ph pa id, hT2 ph pa id, any_known_key c ph pa id p hp, any_known_key c ph pa id p hp,
+    List.any_append, ← hs1]
+  cases comp.any (keyMatch ph pa id) <;> cases halt.any (keyMatch ph pa id) <;> simp
 
 end Bobo.Decider
